@@ -172,7 +172,8 @@ pub fn assignment_no_type(input: Node, is_const: bool, is_modify: bool, verif_re
 }} // verus!
 fn main() {{}}
 """
-    obls = [Obl(f"C10.ident.{n}", ["C10", "C11"], fn=f"Ident::{n}", desc=f"Ident::{n}: name / const flag / type as the const checks rely on") for n in IDENT_FNS] + [
+    obls = [Obl(f"C10.ident.{n}", ["C10", "C11"] + (["C07"] if n == "wrap_in_callback" else []), fn=f"Ident::{n}",
+                desc=f"Ident::{n}: name / const flag / type as the const checks rely on" + ("; a captured variable seen from a deeper function is wrapped as captured ONCE (D119)" if n == "wrap_in_callback" else "")) for n in IDENT_FNS] + [
         Obl("C10.assignment_type", ["C10", "C03", "C07", "C02"], fn="assignment_type", desc="Parser::assignment_type: previous declaration = lookup over all blocks of the function (or the captured scopes for modify); const marks read-only; modify marks captured; incompatible typed initializer rejected"),
         Obl("C10.assignment_no_type", ["C10", "C07", "C02"], fn="assignment_no_type", desc="Parser::assignment_no_type: same lookup / flag contract for untyped assignments"),
     ]
